@@ -15,7 +15,7 @@ import (
 func mainConfig(r *rng.R) progs.Config {
 	cfg := progs.DefaultConfig()
 	cfg.Files = r.Pick(1, 2, 3, 3, 4)
-	return cfg
+	return small(cfg)
 }
 
 // chunkModes are the read segmentations every decode is run under.
@@ -211,4 +211,12 @@ var _ = gobuild.Options{}
 
 func init() {
 	modeGens["C01"] = modeGen{mainConfig, optionSet}
+}
+
+// small shrinks a configuration when a corpus sample is being made.
+func small(cfg progs.Config) progs.Config {
+	if *mkCorpus != "" {
+		cfg.Files, cfg.Defs, cfg.Consts, cfg.Services, cfg.Funcs = 2, 4, 3, 1, 3
+	}
+	return cfg
 }
